@@ -2,7 +2,7 @@
    association side, never negative, and moves a position by at most the sizes
    the map's ranges declare. *)
 From Coq Require Import ZArith List Bool Lia ZifyBool.
-From PM Require Import Model.StepMap Proofs.StepMapProofs.
+From PM Require Import Model.StepMap Proofs.StepMapProofs Proofs.StepMapProofs2.
 Import ListNotations.
 Open Scope Z_scope.
 
@@ -209,4 +209,23 @@ Proof.
   intros Hb Hpq Hq m. unfold m.
   rewrite (rule_outside pre post q a); [|eapply all_before_le; eauto|auto].
   rewrite (rule_outside pre post p b); [lia|auto|destruct post as [|[[s x] y] post]; auto; lia].
+Qed.
+
+(* ------------------------------------------------------------------ *)
+(* The inverse of a map sends the new boundaries of every range back to its old boundaries. *)
+Theorem invert_maps_boundaries_back pre s x y post :
+  wf_ranges 0 pre -> all_before pre s -> 0 <= x -> 0 <= y ->
+  let m := {| ranges := pre ++ (s, x, y) :: post; inverted := false |} in
+  map (invert m) (s + total_diff pre) (-1) = s /\
+  map (invert m) (s + total_diff pre + y) 1 = s + x.
+Proof.
+  intros Hwf Hb Hx Hy m. unfold m, map, invert; cbn [ranges inverted negb]. unfold map_result; cbn [ranges inverted].
+  rewrite !map_go_inv. rewrite norm_app. cbn [norm].
+  replace (s - (0 - total_diff pre)) with (s + total_diff pre) by lia.
+  pose proof (for_each_consistent (norm 0 pre) (s + total_diff pre) y x
+               (norm (0 - total_diff pre + (x - y)) post)) as R.
+  unfold map, map_result in R; cbn [ranges inverted] in R.
+  destruct R as [R1 R2]; auto.
+  - replace (s + total_diff pre) with (s - 0 + total_diff pre) by lia. apply (all_before_norm pre 0); auto.
+  - rewrite R1, R2, total_diff_norm. split; lia.
 Qed.
